@@ -37,14 +37,18 @@ def gen_reactions(rng, tier):
             # adjacent piecewise windows
             fam += 1
             nb = rng.randint(3, 5)
-            bounds = sorted(rng.sample([5, 10, 20, 50, 100, 280, 300, 800, 1000, 5500, 41000], nb))
+            bounds = sorted(rng.sample([5, 10, 20, 50, 100, 280, 300, 800, 1000, 5500, 41000, 11604.518, 157.321987, 9280.1234, 2.7255], nb))
+            if fmt == "kida":       # KIDA windows are integer columns
+                bounds = sorted({int(x) for x in bounds if int(x) > 0})
+                if len(bounds) < 2:
+                    bounds = [10, 300]
             for a, b in zip(bounds, bounds[1:]):
                 alpha += 1.0
                 out.append({"re": re_, "pr": pr_, "tmin": float(a), "tmax": float(b), "alpha": alpha, "group": fam, "fmt": fmt,
                             "bounds": bounds})
         else:
             shape = rng.choice(["none", "lower", "upper", "both", "zero", "neg-lower", "zero-upper"])
-            lo = float(rng.choice([5, 10, 100, 300, 5500]))
+            lo = float(rng.choice([5, 10, 100, 300, 5500, 11604.518, 157.321987] if fmt != "kida" else [5, 10, 100, 300, 5500]))
             hi = float(rng.choice([300, 1000, 41000])) if shape != "both" else lo * rng.choice([2, 10])
             tmin, tmax = {"none": (-1.0, -1.0), "lower": (lo, -1.0), "upper": (-1.0, hi), "both": (lo, hi), "zero": (0.0, 0.0),
                           "neg-lower": (-9999.0, hi), "zero-upper": (lo, 0.0)}[shape]
@@ -59,7 +63,8 @@ KROME_NONE = ["NONE", "none", "N", "N/A", "NO", ""]
 def krome_bound(rng, v, upper):
     if v <= 0:
         return rng.choice(KROME_NONE)
-    txt = rng.choice([f"{v:g}", f"{v:.1f}", f"{v:.3e}".replace("e+0", "d").replace("e+", "d"), f"{v:.2e}".replace("e+", "e")])
+    txt = rng.choice([repr(float(v)), repr(float(v)).replace("e+", "d").replace("e", "d")]) if v != int(v) else \
+        rng.choice([f"{v:g}", f"{v:.1f}", f"{v:.3e}".replace("e+0", "d").replace("e+", "d"), f"{v:.2e}".replace("e+", "e")])
     op = rng.choice(["", "<", ".LT.", ".LE."] if upper else ["", ">", ".GE.", ".GT."])
     return op + txt
 
@@ -78,7 +83,7 @@ def write_files(rng, reacs, d: Path):
                 re_ = r["re"] + [""] * (3 - len(r["re"]))
                 pr_ = r["pr"] + [""] * (5 - len(r["pr"]))
                 lines.append(",".join([f"{idx:<5}", *[f"{x:>12}" for x in re_], *[f"{x:>12}" for x in pr_], f"{r['alpha']:10.3e}",
-                                       f"{0.0:10.3e}", f"{0.0:10.3e}", f"{r['tmin']:9.2f}", f"{r['tmax']:9.2f}", f"{100:>4}", f"{'t':>8}"]))
+                                       f"{0.0:10.3e}", f"{0.0:10.3e}", f"{r['tmin']!r:>9}", f"{r['tmax']!r:>9}", f"{100:>4}", f"{'t':>8}"]))
             elif fmt == "kida":
                 rs = "".join(f"{x:<11}" for x in r["re"] + [""] * (3 - len(r["re"])))
                 ps = "".join(f"{x:<11}" for x in r["pr"] + [""] * (5 - len(r["pr"])))
@@ -88,7 +93,7 @@ def write_files(rng, reacs, d: Path):
                 sp = r["re"] + [""] * (2 - len(r["re"])) + r["pr"] + [""] * (4 - len(r["pr"]))
                 if len(r["re"]) > 2:
                     sp = r["re"][:2] + r["pr"] + [""] * (4 - len(r["pr"]))
-                lines.append(":".join([str(idx), "NN", *sp, "1", f"{r['alpha']:.2e}", "0.00", "0.0", f"{r['tmin']:g}", f"{r['tmax']:g}",
+                lines.append(":".join([str(idx), "NN", *sp, "1", f"{r['alpha']:.2e}", "0.00", "0.0", f"{r['tmin']!r}", f"{r['tmax']!r}",
                                        "L", "C", '"x"', "", ""]))
             elif fmt == "krome":
                 if not lines:
